@@ -351,6 +351,11 @@ class Tracker:
     def update(self, req, rs):
         ccs = req[0] // 32
         r = rs[0] if len(rs) == 1 and len(rs[0]) == 8 else None
+        if (r is not None and r[0] == 0x80 and int.from_bytes(r[4:8], "little") == R.AB_TOGGLE and ccs == 0
+                and self.state and self.state[0] == "down" and (req[0] // 16) % 2 != self.state[1]):
+            # a segment refused for its toggle bit changes nothing: should the server go on accepting the segments of
+            # this transfer (it need not), the value is still the concatenation of the ACCEPTED segments only
+            return
         if r is None or r[0] == 0x80 or ccs not in (0, 1, 2, 3, 5) or len(req) < 4 and ccs in (1, 2, 5):
             self.state = None
         elif ccs in (2, 5):
@@ -784,7 +789,14 @@ def partial_segment_cases(rng, n):
             sizes[rng.randrange(len(sizes) - 1)] = rng.randrange(1, 7)
         chunks = [rbytes(rng, x) if rng.random() < 0.8 else [0] * x for x in sizes]
         idx, sub = rng.choice([(0x2001, 0), (0x2001, 0), (0x2004, 1), (0x2004, 9)])
-        ops = [["f", f] for f in seg_frames_of(idx, sub, chunks, rng.random() < 0.5)] + [["u", idx, sub]]
+        frs = seg_frames_of(idx, sub, chunks, rng.random() < 0.5)
+        if len(frs) > 2 and rng.random() < 0.35:
+            # a duplicated (or foreign) segment with the wrong toggle in the middle: refused with a toggle error, and if the
+            # server lets the transfer go on, its bytes must not end up in the value
+            j = rng.randrange(2, len(frs))
+            dup = list(frs[j - 1]) if rng.random() < 0.5 else [frs[j - 1][0] & 0xFE] + rbytes(rng, 7)
+            frs = frs[:j] + [dup] + frs[j:]
+        ops = [["f", f] for f in frs] + [["u", idx, sub]]
         if rng.random() < 0.4:      # numeric entries written in pieces: 4 = 1+3, 8 = 3+5 ...
             a = rng.randrange(1, 4)
             ops += [["f", f] for f in seg_frames_of(0x2002, 0, [rbytes(rng, a), rbytes(rng, 4 - a)], rng.random() < 0.5)] + [["u", 0x2002, 0]]
